@@ -697,6 +697,15 @@ func summarisePredicate(fn *ssa.Function, depth int) *predSummary {
 		}
 		return m
 	}
+	// per-path guard sets of a block ((a || b) && c has no edge-dominating guard for a or b: the
+	// alternatives are only visible per path); falls back to the dominating guards
+	pathSets := func(bi int) []map[string]bool {
+		blk := fn.Blocks[bi]
+		if pgs, ok := f.PathGuards(blk.Instrs[len(blk.Instrs)-1], 32); ok && len(pgs) > 0 {
+			return pgs
+		}
+		return []map[string]bool{guardSet(f.BlockGuards(bi))}
+	}
 	for _, r := range f.Returns() {
 		vals := f.ReturnValues(r)
 		if len(vals) != 1 {
@@ -709,17 +718,20 @@ func summarisePredicate(fn *ssa.Function, depth int) *predSummary {
 				if !f.reach[pb.Index] {
 					continue
 				}
-				m := guardSet(f.BlockGuards(pb.Index))
-				if iff, ok := pb.Instrs[len(pb.Instrs)-1].(*ssa.If); ok && len(pb.Succs) == 2 && pb.Succs[0] != pb.Succs[1] {
-					for _, s := range normCond(iff.Cond, pb.Succs[0] == phi.Block()) {
-						m[s] = true
+				for _, m := range pathSets(pb.Index) {
+					if iff, ok := pb.Instrs[len(pb.Instrs)-1].(*ssa.If); ok && len(pb.Succs) == 2 && pb.Succs[0] != pb.Succs[1] {
+						for _, s := range normCond(iff.Cond, pb.Succs[0] == phi.Block()) {
+							m[s] = true
+						}
 					}
+					contribs = append(contribs, contrib{m, e})
 				}
-				contribs = append(contribs, contrib{m, e})
 			}
 			continue
 		}
-		contribs = append(contribs, contrib{guardSet(f.BlockGuards(r.Block().Index)), v})
+		for _, m := range pathSets(r.Block().Index) {
+			contribs = append(contribs, contrib{m, v})
+		}
 	}
 	if len(contribs) == 0 {
 		return ps
